@@ -23,7 +23,12 @@ type c03world struct {
 	mdig        ociregistry.Digest
 }
 
-const c03mt = "application/x-opaque-manifest"
+// c03mt: the media type of the manifests in play: plain lower case, with upper-case
+// letters, or with a parameter (media types are opaque to the registry and must come
+// back unchanged)
+var c03mt = "application/x-opaque-manifest"
+
+var c03mts = []string{"application/x-opaque-manifest", "application/vnd.acme.Widget.v1+json", "application/vnd.acme.widget.v1+json; version=2"}
 
 func c03prepare(w *c03world, withContent bool) *ocimem.Registry {
 	r := ocimem.New()
@@ -114,6 +119,7 @@ func VerifC03_OneHop() {
 	w := &c03world{blob: verifBytes("blob", 1), blob2: []byte("zz"), man: []byte("manifest-bytes")}
 	w.bdig, w.b2dig, w.mdig = digest.FromBytes(w.blob), digest.FromBytes(w.blob2), digest.FromBytes(w.man)
 	withContent := verifBool("withContent")
+	c03mt = c03mts[verifChoose("mediaType", len(c03mts))]
 	regD := c03prepare(w, withContent)
 	regS := c03prepare(w, withContent)
 	opts := &Options{
